@@ -41,13 +41,24 @@ def main():
         p = prop_of(name)
         if not p:
             continue
-        r = subprocess.run([sys.executable, os.path.join(V, "tools", "run_seeded.py"), patch, p], capture_output=True, text=True, cwd=V)
-        line = (r.stdout.strip().splitlines() or ["?"])[-1]
-        status = line.split()[0] if line else "?"
-        m = re.search(r"violations=(\d+) \(no-input=(\d+)\)", line)
-        detail = f"{m.group(1)} violation line(s), {m.group(2)} without failing input" if m else line[:80]
-        rows.append((name, p, status, detail))
-        print(name, p, status, detail, flush=True)
+        meta = {}
+        mp = os.path.join(d, "meta.json")
+        if os.path.exists(mp):
+            try:
+                meta = json.load(open(mp))
+            except Exception:
+                meta = {}
+        for chk in [p] + [c for c in meta.get("also", []) if c != p]:
+            r = subprocess.run([sys.executable, os.path.join(V, "tools", "run_seeded.py"), patch, chk], capture_output=True, text=True, cwd=V)
+            line = (r.stdout.strip().splitlines() or ["?"])[-1]
+            status = line.split()[0] if line else "?"
+            m = re.search(r"violations=(\d+) \(no-input=(\d+)\)", line)
+            detail = f"{m.group(1)} violation line(s), {m.group(2)} without failing input" if m else line[:80]
+            if meta.get("expect") == "not-flagged" and chk == p:
+                status = "NOT-FLAGGED(expected)" if status == "MISSED" else "FLAGGED(unexpected)"
+                detail += "; " + meta.get("expect_why", "")
+            rows.append((name, p if chk == p else f"{p} (also run: {chk})", status, detail))
+            print(name, chk, status, detail, flush=True)
     with open(out, "w") as f:
         f.write("| seeded change | property | quick check | detail |\n|---|---|---|---|\n")
         for r in rows:
